@@ -23,7 +23,7 @@ Definition stale_arg (k : pc) : option pid :=
   match k with StExists d | StReread d | StRename d | StRdMeta d | StMetaRename d => Some d | _ => None end.
 (* between the check and the rename of a lock cleanup *)
 Definition lock_win (k : pc) : bool :=
-  match k with StRename _ | CoExists | CoMetaExists | CoRename => true | _ => false end.
+  match k with StRename _ | CoExists | CoMetaExists | CoRdMeta | CoLive _ | CoRename => true | _ => false end.
 Definition meta_win (k : pc) : bool := match k with StMetaRename _ => true | _ => false end.
 Definition tmp_pc (k : pc) : bool := match k with MetaRemove | MetaRename => true | _ => false end.
 Definition acq_pc (k : pc) : bool := match k with AcqCreate | AcqWrite | MetaTmp | MetaRemove | MetaRename => true | _ => false end.
